@@ -26,6 +26,9 @@ type SpecEnv struct {
 	err    error
 	fr     *Frame
 	result []*Val
+	// missingLocal is set when a clause names a local variable of the function that is not in scope in the
+	// state at hand (postconditions over locals are only checked at the returns where the local is live)
+	missingLocal *string
 }
 
 func (env *SpecEnv) fail(format string, args ...interface{}) *Val {
@@ -33,6 +36,22 @@ func (env *SpecEnv) fail(format string, args ...interface{}) *Val {
 		env.err = fmt.Errorf(format, args...)
 	}
 	return &Val{T: types.Typ[types.Bool], S: "true"}
+}
+
+// hasLocal: does the function under verification declare a local variable of that name?
+func (fr *Frame) hasLocal(name string) bool {
+	if fr.fi == nil || fr.fi.Pkg.TypesInfo == nil {
+		return false
+	}
+	for id, o := range fr.fi.Pkg.TypesInfo.Defs {
+		if o == nil || id.Name != name {
+			continue
+		}
+		if v, ok := o.(*types.Var); ok && !v.IsField() && fr.fi.Decl.Body != nil && id.Pos() >= fr.fi.Decl.Body.Pos() && id.Pos() <= fr.fi.Decl.Body.End() {
+			return true
+		}
+	}
+	return false
 }
 
 func (env *SpecEnv) with(names map[string]*Val) *SpecEnv {
@@ -344,6 +363,10 @@ func (env *SpecEnv) evalGo(e ast.Expr) *Val {
 	case *ast.Ident:
 		v := env.lookupName(x.Name)
 		if v == nil {
+			if env.missingLocal != nil && env.fr != nil && env.fr.fi != nil && env.fr.hasLocal(x.Name) {
+				*env.missingLocal = x.Name
+				return &Val{T: intT, S: "0"}
+			}
 			return env.fail("unknown name %q in specification", x.Name)
 		}
 		if v.Fn != nil && v.S == "" {
@@ -567,7 +590,7 @@ func (env *SpecEnv) indexVal(base, idx *Val) *Val {
 			return &Val{T: u.Elem(), S: fmt.Sprintf("(seq.nth %s %s)", base.S, idx.S)}
 		}
 		hn, hs := env.eng.elemHeap(u.Elem())
-		return &Val{T: u.Elem(), S: fmt.Sprintf("(select (select %s (sl_ref %s)) (+ (sl_off %s) %s))", env.s.heap(hn, hs), base.S, base.S, idx.S)}
+		return &Val{T: u.Elem(), S: fmt.Sprintf("(select (select %s (sl_ref %s)) (ix (sl_off %s) %s))", env.s.heap(hn, hs), base.S, base.S, idx.S)}
 	case *types.Array:
 		if isByte(u.Elem()) {
 			return &Val{T: u.Elem(), S: fmt.Sprintf("(seq.nth %s %s)", base.S, idx.S)}
